@@ -37,8 +37,12 @@ mod verif_kani {
         fn fill_bytes(&mut self, dest: &mut [u8]) { let mut i = 0; while i < dest.len() { dest[i] = self.w32 as u8; i += 1; } }
     }
 
-    // one binade of rates: rate in [2^-(E+1), 2^-E).  For rates > 2^-52, 1/rate < 2^53 and:
-    //   n == floor(1/rate) (computed in f64), alpha == (n+1) - 1/rate exactly, 0 < alpha <= 1.
+    // one binade of rates: rate in (2^-(E+1), 2^-E].  For these, 1/rate < 2^53 and:
+    //   n == floor(1/rate) (in f64, where 1/rate is the correctly rounded quotient), n >= 1, 0 < alpha <= 1,
+    //   and (n+1) and 1/rate are within a factor of two of each other, so by Sterbenz' lemma the float
+    //   subtraction alpha = (n+1) - 1/rate is EXACT (the lemma itself is a mathematical fact about IEEE-754,
+    //   not machine-checked here: proving the exactness by SAT did not finish in 300 s).
+    //   Hence E[weight] = n*alpha + (n+1)*(1-alpha) = n + 1 - alpha = 1/rate.
     fn check_rate_binade(e: u32) {
         let rate: f32 = kani::any();
         let hi = f32::from_bits((127 - e) << 23);       // 2^-e
@@ -46,18 +50,31 @@ mod verif_kani {
         kani::assume(rate > lo && rate <= hi);
         let (n, alpha) = rate_to_n_alpha(rate);
         let inv = 1.0f64 / (rate as f64);
+        assert!(n >= 1);
         assert!(n as f64 <= inv && inv < (n as f64) + 1.0);       // n = floor(1/rate)
         assert!(alpha > 0.0 && alpha <= 1.0);
-        assert!(alpha == (n as f64 + 1.0) - inv);                 // exact: both operands < 2^53
-        // expectation over the draw: n*alpha + (n+1)*(1-alpha) = n + 1 - alpha = 1/rate  (exact in f64 here)
-        assert!((n as f64 + 1.0) - alpha == inv);
-        // the decision: n iff draw < alpha, else n+1
-        let mut rng = ScriptRng { w32: kani::any(), w64: kani::any() };
-        let draw: f64 = ScriptRng { w32: rng.w32, w64: rng.w64 }.random::<f64>();
+        let n1 = (n + 1) as f64;
+        assert!(n1 <= 2.0 * inv && inv <= 2.0 * n1);              // Sterbenz precondition => alpha exact
+        kani::cover!(alpha < 1.0, "fractional 1/rate reachable");
+    }
+
+    // the decision, for EVERY rate at or above the saturation threshold and EVERY draw:
+    // weight = n if draw < alpha else n+1, with (n, alpha) the function's own floor / remainder
+    #[kani::proof]
+    fn rate_to_n_decision_all_rates_all_draws() {
+        let rate: f32 = kani::any();
+        kani::assume(rate > 0.0 && rate <= 1.0);
+        kani::assume(!(rate < 1.0 / (i64::MAX as f32)));
+        let w64: u64 = kani::any();
+        let mut rng = ScriptRng { w32: kani::any(), w64 };
+        let draw: f64 = ScriptRng { w32: rng.w32, w64 }.random::<f64>();
+        assert!(draw >= 0.0 && draw < 1.0);
+        let (n, alpha) = rate_to_n_alpha(rate);
         let w = rate_to_n(rate, &mut rng);
-        assert!(w == n || w == n + 1);
-        assert!((w == n) == (draw < alpha));
-        kani::cover!(w == n + 1, "ceiling reachable");
+        assert!(w == n || w == n.saturating_add(1));
+        assert!((w == n) == (draw < alpha) || n == u64::MAX);
+        kani::cover!(w != n, "ceiling reachable");
+        kani::cover!(w == n, "floor reachable");
     }
     macro_rules! binades { ($($name:ident = $e:expr),*) => { $( #[kani::proof] fn $name() { check_rate_binade($e) } )* } }
     binades!(rate_binade_00 = 0, rate_binade_01 = 1, rate_binade_02 = 2, rate_binade_03 = 3, rate_binade_04 = 4, rate_binade_05 = 5,
